@@ -21,6 +21,7 @@ def strMapOf : J → Except String (List (String × String))
   | .null => .ok []
   | .obj kvs => kvs.mapM (fun kv => match kv.2 with
       | .str s => .ok (kv.1, s)
+      | .null => .ok (kv.1, "")          -- a JSON null leaves the Go zero value
       | _ => .error "cannot unmarshal non-string into map[string]string")
   | _ => .error "cannot unmarshal into map[string]string"
 
@@ -28,6 +29,7 @@ def strListOf : J → Except String (List String)
   | .null => .ok []
   | .arr xs => xs.mapM (fun x => match x with
       | .str s => .ok s
+      | .null => .ok ""
       | _ => .error "cannot unmarshal non-string into []string")
   | _ => .error "cannot unmarshal into []string"
 
